@@ -330,7 +330,15 @@ pub fn run_case(bytes: &[u8], _t: Tier) -> CaseOut {
                     for (k, def) in defaults {
                         let Some(got) = p.fields.get(k) else { continue };
                         let exp = case.items.iter().find(|i| i.name == k).and_then(|i| i.expect.clone()).unwrap_or_else(|| def.to_string());
-                        let same = if exp.starts_with("Some(") { num_eq(got, &exp) } else { got.replace(' ', "") == exp.replace(' ', "") };
+                        let same = if exp.starts_with("Some(") {
+                            num_eq(got, &exp)
+                        } else if exp.starts_with("list:") && got.starts_with("list:") {
+                            // the labels as written, as a set (listing one twice means nothing more)
+                            let set = |x: &str| x["list:".len()..].split('\u{1}').map(|p| p.to_string()).collect::<std::collections::BTreeSet<String>>();
+                            set(got) == set(&exp)
+                        } else {
+                            got.replace(' ', "") == exp.replace(' ', "")
+                        };
                         if !same {
                             out.violation = Some(viol(&format!("field-{}", k), format!("#[{}({})]: {} = {}", mac, text, k, exp), format!("{} = {}", k, got)));
                             break;
